@@ -1,8 +1,8 @@
 """C02 encoded messages are well-formed: framing harness over the real Message::encode(char**)"""
 from vf.core import *
 from props import codec
-FUN = ['FIX8::Message::encode(char**)', 'FIX8::BaseField::encode(char*)', 'FIX8::Field<f8String,8>::print / Field<Length,9>::print / Field<f8String,10>::print', 'FIX8::itoa<int>', 'FIX8::itoa<unsigned>',
-       'FIX8::Message::fmt_chksum', 'FIX8::FieldTraits::clear(field, suppress)', 'FIX8::presorted_set<unsigned short, FieldTrait>::find']
+FUN = ['FIX8::Message::encode(char**)', 'FIX8::BaseField::encode(char*)', 'FIX8::Field<f8String,8>::print / Field<Length,9>::print / Field<f8String,10>::print', 'FIX8::itoa<int>', 'FIX8::itoa<unsigned short>',
+       'FIX8::FieldTraits::clear(field, suppress)', 'FIX8::presorted_set<unsigned short, FieldTrait>::find']
 
 def run(ctx):
     kf = codec.kfs('C02'); defs = kf_defines(kf)
@@ -12,11 +12,15 @@ def run(ctx):
     wins = [(5, 40), (85, 115), (985, 1015), (9985, 10015), (500, 515), (5000, 5015)] + ([(41, 84), (99985, 100015), (999985, 1000015), (50000, 50015)] if ctx.tier == 'thorough' else [])
     for lo, hi in wins:
         ctx.add(Harness('C02_frame_%d_%d' % (lo, hi), VERIF + '/harness/C02_frame.c', defines=defs + codec.WORLD_DEFS + ['LO=%d' % lo, 'HI=%d' % hi, 'VF_MAXCOPY=%d' % codec.FLD], unwind=14,
-                        unwindset=codec.us_decode(6), flags=['-I', VERIF + '/shims'], object_bits=13, timeout=900, functions=FUN,
+                        unwindset=codec.us_decode(6), flags=['-I', VERIF + '/shims', '--max-field-sensitivity-array-size', str(hi + 64)], object_bits=13, timeout=900, functions=FUN,
                         stubs=['MessageBase::encode(char*) const (header, body, trailer sub-encoders) := reports a constant number of bytes n1, n2, n3 at the position it is given (two splits per length: 5/T-5/0 and 7/T-13/6); layout checked',
-                               'Message::calc_chksum := a sum chosen by the harness; start pointer and length checked (kernel == byte sum: C07)', 'std::string, operator new: models/cxx.c; logging off'],
+                               'Message::calc_chksum := a sum chosen by the harness; start pointer and length checked (kernel == byte sum: C07)',
+                               'Message::fmt_chksum := the three zero-padded decimal digits of its argument (the real function is checked for every value 0..255 by C02_fmtsum)', 'std::string, operator new: models/cxx.c; logging off'],
                         bounds='every payload size in [%d, %d] (one concrete-layout run per size and split), every checksum 0..255; output buffer with canaries before the preamble and behind the NUL; BeginString FIX.4.2' % (lo, hi),
                         desc='preamble width, BodyLength digits, CheckSum field, return value', backend='default', tier='quick' if hi <= 10015 else 'thorough'))
+    ctx.add(Harness('C02_fmtsum', VERIF + '/harness/C02_fmtsum.c', defines=defs + codec.WORLD_DEFS + ['VF_MAXCOPY=%d' % codec.FLD], unwind=14, unwindset=codec.us_decode(6, extra=['main.0:260']),
+                    flags=['-I', VERIF + '/shims'], object_bits=13, timeout=600, functions=['FIX8::Message::fmt_chksum', 'FIX8::itoa<unsigned>'], stubs=['std::string: models/cxx.c'],
+                    bounds='every value 0..255 (one concrete run each)', desc='three zero-padded decimal digits'))
     ctx.assumptions += ['position ordering of fields inside a component (the _pos multimap) and group layout are not part of this harness (ordering harness: not built, see tools/reports/C02.md)',
                         'Message::encode(f8String&) only adds a stack buffer of FIX8_MAX_MSG_LENGTH + 32 bytes around the same code: capacity is C03\'s subject']
     ctx.solve(jobs=codec.JOBS)
